@@ -194,6 +194,10 @@ pub fn build_rl(n: Option<usize>, runs: &[(usize, usize)], split: &[u8], redunda
         let pieces = pieces.min(l).max(1);
         let base = l / pieces;
         let mut start = s;
+        if redundant_set_len && k % 2 == 1 && s > b.len() {
+            // the gap in front of a run may be made by set_len: len() is "the first position that can be set"
+            b.set_len(s);
+        }
         for i in 0..pieces {
             let len = if i + 1 == pieces { s + l - start } else { base };
             if unchecked {
